@@ -156,7 +156,18 @@ def ordering_rules(prog, res):
     lp = cond_edges(e, lambda c: c.get("k") == "bin" and c["op"] == "<" and "p:1" in e.anchors(c["rhs"], depth=0), "true")
     rd = [(b, i) for b, i, r in e.roots() for y in walk(r) if y.get("k") == "idx"]
     res.check(bool(lp) and bool(rd) and e.must_pass(via_edges=set(lp), targets=rd), R, "delimiter-scan-in-bounds", e.loc, "the scan reads inSeqs[i] only for i < inSeqsSize", "delimiter scan can read past the array")
-    res.need(R, 6)
+    # the explicit-delimiter list is made of blocks: the loop's success exit is reached with every block consumed, or validation is off
+    used = guards.rel_edges(f, lambda a: any(y.get("k") == "mem" and y.get("f") == "idx" for y in f.walk_resolved(a)), "!=",
+                            lambda b_: strip_casts(b_).get("pi") == 4, truth=False)
+    noval = guards.truthy_edges(f, lambda c: c.get("k") == "mem" and c.get("f") == "validateSequences", truth=False)
+    nodelim = guards.rel_edges(f, lambda a: any(y.get("k") == "mem" and y.get("f") == "blockDelimiters" for y in f.walk_resolved(a)), "==",
+                               lambda b_: any(y.get("n") == "ZSTD_sf_explicitBlockDelimiters" for y in walk(b_)), truth=False)
+    okr = [t for t in reset.success_returns(f) if t in f.flow([(b, i + 1) for b, i in cop])] if cop else []
+    res.check(bool(used) and bool(okr) and f.must_pass(via_edges=used + noval + nodelim, starts=[(b, i + 1) for b, i in cop], targets=okr), R, "every-explicit-block-consumed", f.loc,
+              "after the block loop, success needs seqPos.idx == inSeqsSize when validating an explicit-delimiter list",
+              "ZSTD_compressSequences_internal accepts an explicit-delimiter list that describes blocks after the end of the source (block lengths that disagree "
+              "with the source) although validation is on")
+    res.need(R, 7)
 
 
 def producer_rules(prog, res):
